@@ -61,14 +61,20 @@ def run(chk, prog):
     ini = {a.base: a.value for a in sc.accesses if a.kind == "store" and a.idx is None and a.base.startswith("_")}
     chk.check(str(ini.get("_fptype")) == "fptype", "R2", st.fn.where, "_fptype is the constructor's fptype parameter", "FP:ctor:_fptype")
     gate_fields = set()
-    for dt, line, g in st.gate_nodes:
+    def gate_inputs(g, depth=0):
         for y in A.walk(g):
             f = A.this_field(y)
             if f:
                 gate_fields.add(f)
             d = A.declref(y)
             if d is not None and d.get("dkind") in ("ParmVar", "Var"):
-                gate_fields.add(d["name"])
+                loc = sc.locals.get(d.get("decl"))
+                if loc is not None and "init" in loc and sc.assigned.get(d["decl"], 0) == 0 and depth < 3 and d.get("dkind") == "Var":
+                    gate_inputs(loc["init"], depth + 1)      # a named condition: look at what it was computed from
+                else:
+                    gate_fields.add(d["name"])
+    for dt, line, g in st.gate_nodes:
+        gate_inputs(g)
     chk.check(gate_fields <= {"_fptype", "fptype"}, "R2", st.fn.where, "stencil gates depend on the Fokker-Planck type only (%s)" % sorted(gate_fields),
               "FP:ctor:gates:%s" % sorted(gate_fields))
 
